@@ -401,4 +401,5 @@ func run(c *hlib.Ctx) {
 	runBall(c, n)
 	runXfBall(c, n)
 	runQueries(c, n)
+	runReentScale(c, n)
 }
